@@ -17,7 +17,7 @@ struct Src {
     features: Vec<String>,
 }
 
-const KINDS: &[&str] = &["u32", "*const u8", "[u16; 4]", "[u8; 32]", "Plain", "Marked", "En", "EnDef", "Ext", "*mut Marked", "[Marked; 2]"];
+const KINDS: &[&str] = &["u32", "*const u8", "[u16; 4]", "[u8; 32]", "Plain", "Marked", "En", "EnDef", "Ext", "*mut Marked", "[Marked; 2]", "[[Plain; 2]; 2]", "[[Marked; 2]; 2]", "[*const Plain; 2]", "[[En; 2]; 3]"];
 
 /// derive / packing space: marker subsets x field kinds x same-module / cross-module
 fn marker_space() -> Vec<Src> {
@@ -59,7 +59,7 @@ fn marker_space() -> Vec<Src> {
                 for m in &a {
                     features.push(format!("marker:{m}"));
                 }
-                if markers & 8 != 0 && matches!(*kind, "Plain" | "Marked" | "[Marked; 2]") {
+                if markers & 8 != 0 && matches!(*kind, "Plain" | "Marked" | "[Marked; 2]" | "[[Plain; 2]; 2]" | "[[Marked; 2]; 2]") {
                     features.push("packed_embeds_user_struct".into());
                 }
                 out.push(Src { family: "markers", input, supply, features });
@@ -69,8 +69,44 @@ fn marker_space() -> Vec<Src> {
     out
 }
 
+/// module documentation x rust prologue x epilogue around one type and one extern value: all are
+/// valid inputs and must give a crate that compiles (the prologue's inner attributes and items, the
+/// module's `#![doc]` lines and the generated items have to come out in an order rustc accepts)
+fn doc_and_backend_space() -> Vec<Src> {
+    let mut out = vec![];
+    let docs = ["", "//! one line\n", "//! first\n//!\n//! third\n"];
+    let prologues = [None, Some("use core::mem::size_of;"), Some("pub struct Helper(pub u32);"), Some("#![allow(dead_code)]"), Some("#![allow(dead_code)]\npub const K: usize = 4;\npub struct Helper(pub u32);"), Some("// only a comment")];
+    let epilogues = [None, Some("pub fn helper() -> usize { ::core::mem::size_of::<T>() }"), Some("impl T { pub fn extra(&self) -> u32 { self.a } }")];
+    for d in docs {
+        for p in prologues {
+            for e in epilogues {
+                for braces in [false, true] {
+                    let mut t = String::from(d);
+                    match (p, e, braces) {
+                        (None, None, _) => {}
+                        (p, e, true) => {
+                            t.push_str("backend rust {\n");
+                            if let Some(p) = p { t.push_str(&format!("    prologue r#\"\n{p}\n\"#;\n")); }
+                            if let Some(e) = e { t.push_str(&format!("    epilogue r#\"\n{e}\n\"#;\n")); }
+                            t.push_str("}\n");
+                        }
+                        (p, e, false) => {
+                            if let Some(p) = p { t.push_str(&format!("backend rust prologue r#\"\n{p}\n\"#;\n")); }
+                            if let Some(e) = e { t.push_str(&format!("backend rust epilogue r#\"\n{e}\n\"#;\n")); }
+                        }
+                    }
+                    t.push_str("/// a type\npub type T {\n    pub a: u32,\n    pub b: u32,\n}\n#[address(0x1000)]\npub extern gv: u32;\n");
+                    out.push(Src { family: "docs_and_backends", input: Input::single(t), supply: vec![], features: vec!["must_accept".into()] });
+                }
+            }
+        }
+    }
+    out
+}
+
 fn sources(tier: &str) -> Vec<Src> {
     let mut out = marker_space();
+    out.extend(doc_and_backend_space());
     let plain = |family: &'static str, input: Input| Src { family, input, supply: vec![], features: vec![] };
     for i in checks::c17::all_inputs(tier).into_iter().step_by(if tier == "thorough" { 1 } else { 7 }) {
         out.push(plain("carry_over", i));
@@ -200,7 +236,7 @@ fn flush(rep: &mut Report, ps: usize, target: Target, rows: &mut Vec<Row>, rcase
 
 pub fn run(tier: &str, only: Option<&Value>) -> i32 {
     let mut rep = Report::new("C13", tier);
-    rep.rule = "Every accepted case of: the layout space with auxiliary module (C01/C02), a dedicated space of every subset of {copyable, cloneable, defaultable, packed} x eleven field kinds (scalars, pointers, arrays up to 32, user structs with and without the same markers, enums with and without a default, extern type, pointer / array of marked struct) x same-module / cross-module, the carry-over (C17), convention (C16), scoping (C11), enum (C08), hierarchy (C06/C07) and module-set (C19) spaces (quick: strided subsets of the larger ones) — is assembled into a crate (modules mirroring the input tree, extern types supplied) and type-checked in full by rustc for x86_64 (calling conventions normalised to \"C\") and, unmodified, for i686-pc-windows-msvc. Oracle: zero errors; deny-by-default lints count, warnings do not. distinct = distinct emitted crates".into();
+    rep.rule = "Every accepted case of: the layout space with auxiliary module (C01/C02), a dedicated space of every subset of {copyable, cloneable, defaultable, packed} x fifteen field kinds (scalars, pointers, arrays up to 32, user structs with and without the same markers, enums with and without a default, extern type, pointer / array / nested arrays of plain and marked structs and enums, array of pointers) x same-module / cross-module, module documentation x rust prologue (imports, items, inner attributes) x epilogue in both backend forms (all must be accepted), the carry-over (C17), convention (C16), scoping (C11), enum (C08), hierarchy (C06/C07) and module-set (C19) spaces (quick: strided subsets of the larger ones) — is assembled into a crate (modules mirroring the input tree, extern types supplied) and type-checked in full by rustc for x86_64 (calling conventions normalised to \"C\") and, unmodified, for i686-pc-windows-msvc. Oracle: zero errors; deny-by-default lints count, warnings do not. distinct = distinct emitted crates".into();
     rep.assumptions = vec!["outside the fragment by construction: non-power-of-two alignments and arrays longer than 32 in defaultable types are not generated".into()];
     let src = sources(tier);
     let layout = LayoutSpace::new_reduced(tier, true);
@@ -251,6 +287,7 @@ pub fn run(tier: &str, only: Option<&Value>) -> i32 {
                     }
                 }
                 pipe::Verdict::Panic(p) => rep.violation(Violation { key: "panic".into(), features: vec![], input: s.input.clone(), ps, detail: p, locator: json!({"space": "sources", "index": sidx[j], "ps": ps}) }),
+                other if s.features.iter().any(|f| f == "must_accept") => rep.violation(Violation { key: "valid_input_rejected".into(), features: vec![format!("family:{}", s.family)], input: s.input.clone(), ps, detail: other.err_text(), locator: json!({"space": "sources", "index": sidx[j], "ps": ps}) }),
                 _ => rep.count(&format!("rejected_{}", s.family), 1),
             }
         }
